@@ -48,6 +48,11 @@ def postEvent (s : State) (c : String) (collId : Nat) (e : Event) : State :=
       if f.coll = c ∧ ¬ f.dump then { f with pending := f.pending ++ [.ev e collId f.keysOnly] } else f)
     expNext := schedAtOrBefore s.expNext e.exp }
 
+/-- The state after a committed `withNewCas` transaction (before its event is posted). -/
+def commit (s : State) (c : String) (x : Coll) (newCas nid : Nat) (docs' : Docs) : State :=
+  ({ s with hlc := newCas, lastCas := newCas, nextRowId := nid, acked := newCas :: s.acked }).setColl c
+    { x with docs := docs', lastCas := newCas }
+
 /-- `withNewCas`: one transaction that draws a CAS, runs the closure, advances both `lastCas` columns; then posts. -/
 def withNewCas (s : State) (c : String) (fn : TxnFn) : State × Out :=
   match s.coll? c with
@@ -58,7 +63,7 @@ def withNewCas (s : State) (c : String) (fn : TxnFn) : State × Out :=
     match fn newCas s.now s.nextRowId x.docs with
     | .inl out => (s1, out)
     | .inr (docs', nid, ev, out) =>
-      let s2 := ({ s1 with lastCas := newCas, nextRowId := nid }).setColl c { x with docs := docs', lastCas := newCas }
+      let s2 := commit s c x newCas nid docs'
       match ev with
       | some e => (postEvent s2 c x.id e, out)
       | none => (s2, out)
